@@ -36,6 +36,37 @@ class StubReg(RegressorMixin, _SkBase):
         return self.m_ if n == 1 else np.full(n, self.m_)
 
 
+class DuckForecaster(_SkBase):
+    """has the methods of a forecaster, but is not a sktime BaseForecaster"""
+
+    def fit(self, y, X=None, fh=None):
+        self.last_, self.fh_ = float(np.asarray(y, dtype=float)[-1]), fh
+        return self
+
+    def predict(self, fh=None, X=None, return_pred_int=False, alpha=0.05):
+        k = len(fh if fh is not None else self.fh_)
+        return pd.Series(np.full(k, self.last_))
+
+    def update(self, y, X=None, update_params=True):
+        return self
+
+
+class DuckTransformer(_SkBase):
+    """has the methods of a transformer, but is not a sktime series-to-series transformer"""
+
+    def fit(self, Z, X=None):
+        return self
+
+    def fit_transform(self, Z, X=None):
+        return Z
+
+    def transform(self, Z, X=None):
+        return Z
+
+    def inverse_transform(self, Z, X=None):
+        return Z
+
+
 class MAE:
     name = "mae"
     greater_is_better = False
@@ -838,7 +869,7 @@ def check_window_fit(R, rng, tier):
                     must_reject(R, key, lambda: est.fit(y, fh=[1, 2]), d, est=est)
         # ---- reduction: at least one complete (window, target) row is needed: n - (w + max(fh) - 1) >= 1
         for s in ("recursive", "direct", "multioutput", "dirrec"):
-            for sc in (("tabular-regressor",) if tier == "quick" else ("tabular-regressor", "time-series-regressor")):
+            for sc in ("tabular-regressor", "time-series-regressor"):
                 for fh in ([1], [2], [1, 3]):
                     span = 1 if s == "recursive" else max(fh)
                     for w in range(max(1, n - span - 2), n + 2):
@@ -932,6 +963,7 @@ def check_composites(R, rng, tier):
                 ("component is a regressor, not a forecaster", lambda: [("a", N()), ("b", StubReg())]),
                 ("component is a string", lambda: [("a", N()), ("b", "naive")]),
                 ("component is a transformer", lambda: [("a", LogTransformer()), ("b", M())]),
+                ("component has fit/predict/update but is not a sktime forecaster", lambda: [("a", N()), ("b", DuckForecaster())]),
                 ("all components dropped", lambda: [("a", None), ("b", "drop")]),
                 ("list of forecasters without names", lambda: [N(), M()]),
             ] + [(f"name equal to the constructor argument {a!r}", (lambda a=a: [(a, N()), ("b", M())])) for a in ctor_args]
@@ -960,6 +992,8 @@ def check_composites(R, rng, tier):
             ("steps=None", lambda: None),
             ("last step is a transformer", lambda: [("t", LogTransformer()), ("u", LogTransformer())]),
             ("last step is a regressor", lambda: [("t", LogTransformer()), ("f", StubReg())]),
+            ("last step has fit/predict/update but is not a sktime forecaster", lambda: [("t", LogTransformer()), ("f", DuckForecaster())]),
+            ("intermediate step has fit_transform/transform but is not a series-to-series transformer", lambda: [("t", DuckTransformer()), ("f", N())]),
             ("forecaster is not the last step", lambda: [("f", N()), ("t", LogTransformer())]),
             ("intermediate step is a forecaster", lambda: [("g", M()), ("f", N())]),
             ("intermediate step is a regressor", lambda: [("r", StubReg()), ("f", N())]),
@@ -986,27 +1020,33 @@ SECTIONS = [("targets", check_targets), ("exog", check_exog), ("horizons", check
 
 
 def bounded(tier, seed):
+    rounds = 1 if tier == "quick" else 3
     R = Recorder(
-        "malformation classes x entry points, each in a seeded random otherwise-valid context (RangeIndex/Int64/Period/Datetime index not starting "
-        "at 0, n 12..20; 1 context per cell quick, 2-3 thorough). Entry points: fit/predict/update/update_predict_single/update_predict of "
-        "NaiveForecaster (5 configurations), 8 reduction forecasters (stub regressor), Ensemble, Stacking, Multiplex, TransformedTarget, "
-        "ForecastingGridSearchCV; split/get_cutoffs/get_n_splits of the 4 splitters; evaluate; temporal_train_test_split(fh=); ForecastingHorizon(). "
-        "Classes: 7 malformed targets; 9 mismatching X indices (shift, missing first/last/interior, superset after/before/both, one label replaced); "
-        "18 malformed horizons + missing; fitted-vs-requested horizon: ALL ordered pairs of distinct subsets of {1..4} (5 thorough; {1..5}/{1..6} for "
-        "DirectTabular; sampled per class in quick but always all pairs with equal length and end points) for the 7 horizon-dependent forecasters via predict, "
-        "update+predict, update_predict_single; 9 bad values for window/step/initial window/sp on every splitter, Naive, reducers; window fit: ALL "
-        "n in (6,7,9) [thorough 5..9,11] x 5 [7] horizons x every window 1..n+1 x every initial window w+1..n+2, all cutoffs 0..n+1, Naive window/sp n-2..n+3, "
-        "reducers around the boundary, through split/evaluate/update_predict/tuning; 13 unknown strategy names; 16 ill-formed ensembles x 3 composites, "
-        "4 bad final regressors, 12 ill-formed pipelines. Not covered: statsmodels/pmdarima-based forecasters, TimeSeriesForest-based reduction, real sklearn "
-        "regressors (shim limits), predict(X=...) checks, ForecastingRandomizedSearchCV, float pd.Index horizons (the shim aliases Int64Index to Index)")
+        "every malformation class of the statement x every entry point accepting it, each in a seeded random otherwise-valid context (RangeIndex / Int64 "
+        "index / PeriodIndex starting at 1..30, n in 12..20; quick: 1-2 contexts per cell, thorough: 4-8 contexts and 3 rounds). Entry points: fit / predict / "
+        "update / update_predict_single / update_predict of NaiveForecaster (5 configurations), the 8 reduction forecasters (stub regressor), Ensemble, "
+        "Stacking, Multiplex, TransformedTarget, ForecastingGridSearchCV, ForecastingRandomizedSearchCV; split / get_cutoffs / get_n_splits of the 4 "
+        "splitters; evaluate (refit, update); temporal_train_test_split(fh=); ForecastingHorizon(). Classes: 7 malformed targets; 13 X indices differing from y's "
+        "(shift, missing first/last/interior point, superset after/before/both, replaced end point, same length+ends but different interior, reversed, empty) "
+        "at fit, at update after a valid fit, evaluate, tuning, train/test split; 21 malformed horizons + missing horizon; requested vs fitted horizon: ALL "
+        "ordered pairs of distinct non-empty subsets of {1..4} (quick; {1..5} for one class) / {1..5} (thorough; {1..6} for one class) for the 7 "
+        "horizon-dependent forecasters through predict, update+predict and update_predict_single, in list/array/ForecastingHorizon/unsorted form; 9 bad "
+        "values (0, negatives, floats, str, list, bool) for window_length / step_length / initial_window / sp of every splitter, NaiveForecaster strategy and "
+        "reducer, also via set_params+refit, evaluate, update_predict(cv), tuning; window fit: ALL n in (6,7,9) [thorough 5..11,13] x 5 [9] horizons x "
+        "every window 1..n+1 x every initial window w+1..n+2, all cutoffs 0..n+1, Naive window/sp n-2..n+3, reducers around the boundary for both scitypes, "
+        "through split / evaluate / update_predict / tuning; 13 unknown strategy / scitype / selection names; 17 ill-formed forecaster lists x 3 composites, "
+        "4 bad final regressors, 14 ill-formed pipelines, set_params+refit. NOT covered: DatetimeIndex contexts (pandas 2 Timestamps carry no freq: every "
+        "forecast fails in the sandbox), statsmodels/pmdarima/PolynomialTrend forecasters, TimeSeriesForest-based and real-sklearn-regressor reduction (shim "
+        "limits), checks of X passed to predict, float-valued pd.Index horizons (the shim aliases Int64Index to Index and accepts them), float cutoffs arrays")
     rng = random.Random(1000003 * (seed + 1) + (0 if tier == "quick" else 7))
     with warnings.catch_warnings():
         warnings.simplefilter("ignore")
-        for name, fn in SECTIONS:
-            try:
-                fn(R, rng, tier)
-            except Exception as e:  # noqa  -- an oracle-side crash must be visible, not silent
-                R.check("oracle-section-completed", False, f"section {name} stopped: {type(e).__name__}: {e}")
+        for rnd in range(rounds):
+            for name, fn in SECTIONS:
+                try:
+                    fn(R, rng, tier)
+                except Exception as e:  # noqa  -- an oracle-side crash must be visible, not silent
+                    R.check("oracle-section-completed", False, f"section {name} (round {rnd}) stopped: {type(e).__name__}: {e}")
     return R.result()
 
 
